@@ -901,11 +901,12 @@ func (f *framer) readTypeInfo() TypeInfo {
 		n := f.readShort()
 		tuple := TupleTypeInfo{
 			NativeType: simple,
-			Elems:      make([]TypeInfo, n),
+			// n comes from the wire and types nest: grow with the elements actually read
+			Elems: make([]TypeInfo, 0),
 		}
 
 		for i := 0; i < int(n); i++ {
-			tuple.Elems[i] = f.readTypeInfo()
+			tuple.Elems = append(tuple.Elems, f.readTypeInfo())
 		}
 
 		return tuple
@@ -918,11 +919,13 @@ func (f *framer) readTypeInfo() TypeInfo {
 		udt.Name = f.readString()
 
 		n := f.readShort()
-		udt.Elements = make([]UDTField, n)
+		// as for tuples: grow with the fields actually read
+		udt.Elements = make([]UDTField, 0)
 		for i := 0; i < int(n); i++ {
-			field := &udt.Elements[i]
+			var field UDTField
 			field.Name = f.readString()
 			field.Type = f.readTypeInfo()
+			udt.Elements = append(udt.Elements, field)
 		}
 
 		return udt
